@@ -1,6 +1,7 @@
 """C05 — permissive decoding passes unknown fields through unchanged."""
 from ..facts import Program, AnalysisBroken
 from .. import q
+from . import c04
 
 CLAIM = {
     'text': 'Structural preconditions of pass-through: both MessageBase::encode bodies emit the pass-through buffer after the positioned '
@@ -17,6 +18,7 @@ EXPLANATION = (
     "result = the extractor's return for that token; R05.2 the return path that yields last_valid_offset must truncate _unknown to what "
     "was captured before that offset; R05.3 decode_group has a permissive parameter (or consults one) and can capture unknown tokens. "
     "R05.4 no test on the number of bytes the decoders consumed can make Message::factory reject when permissive_mode is true. "
+    "R05.5 tag text becomes the lookup key without wrap-around, so a tag outside the schema cannot alias a known field (rule of C04 R04.2). "
     "NOT decided: decoded values.")
 
 MB = 'FIX8::MessageBase::'
@@ -70,6 +72,8 @@ def run(ctx):
     calls = [c for c in d.calls_to(MB + 'decode_group')]
     ctx.check(bool(calls), 'R05.3', MB + 'decode#calls-group-decoder', d.loc, 'the section decoder delegates groups to decode_group')
 
+    # ---------------- R05.5 an unknown tag must stay unknown: the tag text is converted to the lookup key without wrap-around (rule of C04 R04.2)
+    c04.tag_rule(ctx, prog, 'R05.5')
     # ---------------- R05.4 the factory must not reject a permissive decode on account of what was (or was not) consumed
     fac = prog.fn1('FIX8::Message::factory', sig='const FIX8::f8String &')
     ctx.saw(fac)
